@@ -171,6 +171,7 @@ def check(case):
     names, prom = addressable(spec, ref)
     flags = spec_flags(spec)
     cls = sorted(flags & {'nested', 'src_indices', 'unit_factor', 'unit_offset'})
+    iterating = bool(spec.get('feedback')) or any(g.get('nl') not in (None, 'runonce') for g in spec['groups'].values())
     if not names:
         res.classes = cls + ['nothing_addressable']
         return res
@@ -240,7 +241,10 @@ def check(case):
             if kind != 'comp_out' or True:
                 for n, exp in scan.items():
                     g = gscan[n]
-                    t2 = 1e-12 * (np.abs(exp) + offmag + 1.0)
+                    # after run_model of a model with an iterating nonlinear solver the independent outputs themselves
+                    # carry the round-off of the solver's last linear solve (a Newton solver at the root updates every
+                    # output): "unchanged" is then judged to 1e-9, otherwise to 1e-12
+                    t2 = (1e-9 if (ph == 2 and iterating) else 1e-12) * (np.abs(exp) + offmag + 1.0)
                     if g.shape != exp.shape or np.any(np.abs(g - exp) > t2):
                         res.fail(f"other-entries-changed:{tag}", f"op {i} phase {ph}: {n} = {g.tolist()} expected {exp.tolist()}")
                         break
@@ -331,7 +335,7 @@ def strategy(tier):
 
 def units(tier, seed):
     n = 16 if tier == 'quick' else 32
-    per = 60 if tier == 'quick' else 800
+    per = 60 if tier == 'quick' else 400
     return [{'kind': 'random', 'n': per, 'seed': core.shard_seed(seed, ID, i)} for i in range(n)]
 
 
